@@ -14,13 +14,16 @@ Proof. intro H. exists l. split; [exact H|]. clear H. induction l; [reflexivity|
 Lemma send_response_M c who st ro bl bp s : Mono s (send_response c who st ro bl bp s).
 Proof. eapply Mono_app. apply send_response_trace. Qed.
 
+Lemma respond_M c r k b p s : Mono s (respond c r k b p s).
+Proof. eapply Mono_app. rewrite respond_trace. apply send_response_trace. Qed.
+
 Lemma handle_request_M c r s : Mono s (handle_request c r s).
 Proof.
   unfold handle_request.
   destruct (poll_handler (rq_id r) (start_service c false r s)) as [s1 out] eqn:P.
   pose proof (poll_handler_trace _ _ _ _ P) as T.
   assert (M1 : Mono s s1) by (eapply Mono_app; rewrite T; unfold start_service, add_trace; cbn; reflexivity).
-  destruct out as [[[k b] p]|]; [|exact M1]. eapply Mono_trans; [exact M1|apply send_response_M].
+  destruct out as [[[k b] p]|]; [|exact M1]. eapply Mono_trans; [exact M1|apply respond_M].
 Qed.
 
 Lemma decode_loop_M c : forall fuel s upd, Mono s (fst (decode_loop fuel c s upd)).
@@ -53,7 +56,7 @@ Proof. eapply Mono_app with (l := [TComplete]). unfold body_end, complete_flags,
 
 Lemma poll_response_M c : forall fuel s, Mono s (poll_response fuel c s).
 Proof.
-  induction fuel as [|f IH]; intros s; cbn [poll_response]; [apply Mono_same; reflexivity|].
+  induction fuel as [|f IH]; intros s; cbn [poll_response]; rewrite ?body_if; [apply Mono_same; reflexivity|].
   destruct (dstate s) eqn:Ed.
   - destruct (draining s); [apply Mono_same; repeat bm; reflexivity|].
     destruct (messages s) as [|[r|stt] ms].
@@ -63,7 +66,7 @@ Proof.
   - destruct (poll_handler (rq_id r) s) as [s1 out] eqn:P.
     pose proof (poll_handler_trace _ _ _ _ P) as T. assert (M1 : Mono s s1) by (apply Mono_same; exact T).
     destruct out as [[[k b] p]|].
-    + eapply Mono_trans; [exact M1|]. eapply Mono_trans; [apply send_response_M|apply IH].
+    + eapply Mono_trans; [exact M1|]. eapply Mono_trans; [apply respond_M|apply IH].
     + destruct (poll_request c s1) as [s2 upd] eqn:P2.
       pose proof (poll_request_M c s1) as M2. rewrite P2 in M2. cbn in M2.
       destruct upd; [|eapply Mono_trans; eauto]. eapply Mono_trans; [exact M1|]. eapply Mono_trans; [exact M2|apply IH].
@@ -125,13 +128,19 @@ Proof.
   repeat bm; cbn; auto.
 Qed.
 
+Lemma respond_Off c r k b p s : Off s -> Off (respond c r k b p s).
+Proof.
+  intro O. pose proof (send_response_Off c (Some r) (if hfail s =? 0 then 200 else hfail s) k b p s O) as O1.
+  revert O1. apply Off_frame; reflexivity.
+Qed.
+
 Lemma handle_request_Off c r s : Off s -> Off (handle_request c r s).
 Proof.
   intro O. unfold handle_request.
   destruct (poll_handler (rq_id r) (start_service c false r s)) as [s1 out] eqn:P.
   pose proof (poll_handler_frame _ _ _ _ P) as F.
   assert (O1 : Off s1) by (rewrite F; revert O; apply Off_frame; reflexivity).
-  destruct out as [[[k b] p]|]; [apply send_response_Off|]; exact O1.
+  destruct out as [[[k b] p]|]; [apply respond_Off|]; exact O1.
 Qed.
 
 Lemma decode_loop_Off c : forall fuel s upd, Off s -> Off (fst (decode_loop fuel c s upd)).
@@ -163,7 +172,7 @@ Proof. intros [A B]. unfold Off, body_end, complete_flags, finish_hook, add_trac
 
 Lemma poll_response_K c : forall fuel s, KAI s -> KAI (poll_response fuel c s).
 Proof.
-  induction fuel as [|f IH]; intros s K; cbn [poll_response].
+  induction fuel as [|f IH]; intros s K; cbn [poll_response]; rewrite ?body_if.
   - revert K; apply KAI_frame; reflexivity.
   - destruct K as [K1 K2]. destruct (dstate s) eqn:Ed.
     + destruct (draining s) eqn:Dr.
@@ -197,7 +206,7 @@ Proof.
       pose proof (poll_handler_frame _ _ _ _ P) as F.
       assert (O1 : Off s1) by (rewrite F; revert O; apply Off_frame; reflexivity).
       destruct out as [[[k b] p]|].
-      * apply IH. apply Off_KAI. apply send_response_Off. exact O1.
+      * apply IH. apply Off_KAI. apply respond_Off. exact O1.
       * destruct (poll_request c s1) as [s2 upd] eqn:P2.
         pose proof (poll_request_Off c s1 O1) as O2. rewrite P2 in O2. cbn in O2.
         destruct upd; [apply IH|]; apply Off_KAI; exact O2.
@@ -315,7 +324,7 @@ Proof.
   pose proof (poll_handler_trace _ _ _ _ P) as T.
   assert (T1 : trace s1 = trace z ++ [TStart r]) by (rewrite T; reflexivity).
   destruct out as [[[k b] p]|].
-  - rewrite send_response_trace, T1, <- app_assoc. cbn. eexists. reflexivity.
+  - rewrite respond_trace, send_response_trace, T1, <- app_assoc. cbn. eexists. reflexivity.
   - exists []. exact T1.
 Qed.
 
